@@ -49,7 +49,7 @@ def batches(tier):
 def describe():
     return {
         "rule": "a tape-generated script of 10-60 ops over wrap<T>/unwrap<T> for all supported T (extremes, "
-                "NaN/inf/-0.0, empty and m x n shapes, strings over 0x01-0x7f), tape-built arrays of the wrong "
+                "NaN/inf/-0.0, empty and m x n shapes, strings over bytes 0x01-0xff up to 4097 long), tape-built arrays of the wrong "
                 "kind, and handle histories (new object, wrap_shared_ptr plain/virtual with RTTI registry "
                 "present or cleared, unwrap_shared_ptr, unwrap_ptr, keep/drop shared_ptr, delete handle, "
                 "unload) runs in the compiled driver; every result line is checked against a Python model. "
@@ -63,8 +63,9 @@ def describe():
                      "statements are transcribed in the driver", "no MATLAB: mxGetProperty copy semantics and "
                      "error unwinding are the mock's"]},
         "assumptions": [
-            "strings over bytes 0x01-0x7f (an embedded NUL cannot cross c_str()/mxCreateString; non-ASCII depends on "
-            "MATLAB's code page)", "inputs the statement is silent about (numeric non-double to Vector, 1x1 of a "
+            "strings over bytes 0x01-0xff (an embedded NUL cannot cross c_str()/mxCreateString); the mock's char "
+            "arrays map one byte to one UTF-16 unit like a single-byte code page, so matlab.h is required to be "
+            "byte-transparent -- what MATLAB's own code-page conversion does to non-ASCII bytes is outside the mock", "inputs the statement is silent about (numeric non-double to Vector, 1x1 of a "
             "foreign class to a scalar, ...) are exercised but either outcome is accepted",
             "mexErrMsg* is a C++ throw in the mock (real MATLAB longjmps)"],
         "side_observations": [],
@@ -140,8 +141,20 @@ def gen_value(t, ty):
     if ty == "double":
         return gen_double(t)
     if ty == "string":
-        n = t.pick([0, 1, 2, 5, 17, 40], "strlen")
-        return bytes(1 + t.choose(127, "strbyte") for _ in range(n))
+        n = t.wpick([(0, 3), (1, 3), (2, 3), (5, 3), (17, 3), (40, 2), (63, 1), (64, 1), (65, 1), (255, 1), (256, 1),
+                     (257, 1), (1024, 1), (4097, 0.5)], "strlen")
+        if n > 65:
+            # long strings: a repeating pattern (buffer-size slips depend on length, not on content)
+            pat = bytes(1 + t.choose(255, "strbyte") for _ in range(7))
+            return (pat * (n // 7 + 1))[:n]
+        edge = [0x20, 0x09, 0x22, 0x25, 0x5c, 0x27, 0x0a, 0x0d, 0x7f, 0x80, 0xff, 0x01]
+        out = bytearray()
+        for i in range(n):
+            if t.bool(0.25, "str-edge"):
+                out.append(t.pick(edge, "str-edge-byte"))
+            else:
+                out.append(1 + t.choose(255, "strbyte"))
+        return bytes(out)
     if ty in ("Vector", "Point2", "Point3"):
         n = {"Point2": 2, "Point3": 3}.get(ty) or t.pick([0, 1, 2, 3, 6], "veclen")
         return [gen_double(t) for _ in range(n)]
